@@ -263,6 +263,11 @@ class SimRunner:
             self.sim.fault_time = self.sim.clock if self.sim.fault_time is None else self.sim.fault_time
         if fault == "runner-raises":
             raise injected("runner fault (injected)")
+        if fault == "unsuccessful-result":
+            # the runner reports the failure in its return value instead of raising (bulk item rejections, unmet conditions, …)
+            svc = self.sim.service_time(name, es.client_id, n)
+            await es.sim_request(name, svc, parent=params.get("parent"))
+            return {"weight": params.get("weight", 1), "unit": "ops", "success": False, "error-type": "sim", "error-description": "injected"}
         svc = self.sim.service_time(name, es.client_id, n)
         await es.sim_request(name, svc, fail=fault, parent=params.get("parent"))
         return {"weight": params.get("weight", 1), "unit": "ops", "success": True}
@@ -503,7 +508,7 @@ def make_config(scenario):
     cfg.add(A, "client", "options", Holder(all_client_options={"default": {"create_api_key_per_client": True} if scenario.get("api_keys") else {}}))
     cfg.add(A, "driver", "load_driver_hosts", scenario.get("hosts", ["localhost"]))
     cfg.add(A, "driver", "on.error", scenario.get("on_error", "continue"))
-    cfg.add(A, "driver", "profiling", False)
+    cfg.add(A, "driver", "profiling", bool(scenario.get("profiling", False)))
     cfg.add(A, "driver", "assertions", False)
     cfg.add(A, "reporting", "datastore.type", "in-memory")
     cfg.add(A, "race", "pipeline", "benchmark-only")
